@@ -27,22 +27,14 @@ TRUSTED = [
 
 # priority order for attributing an unexplained-by-repair failure to a class present in the input
 CLASS_TO_FINDING = [
-    ("string-quote-edge", "C14-string-quote-edge"),
-    ("raw-name", "C14-raw-name"),
-    ("type-tuple-field", "C14-type-tuple-field"),
+    ("ident-star-bare", "C14-ident-star-bare"),
     ("restricted-position", "C14-restricted-position"),
-    ("ident-dollar", "C14-ident-dollar"),
-    ("ident-keyword", "F11-ident-keyword"),
-    ("range-pow-leak", "C14-range-pow-leak"),
     ("param-range", "C14-param-range"),
     ("doc-comment-split", "C14-doc-comment-split"),
     ("float-nonfinite", "F11-float-nonfinite"),
     ("float-integral", "F11-float-integral"),
-    ("interp-format", "C14-interp-format"),
-    ("named-args-order", "C14-named-args-order"),
 ]
-REPAIR_TO_FINDING = {"float-integral": "F11-float-integral", "float-nonfinite": "F11-float-nonfinite", "ident-keyword": "F11-ident-keyword",
-                     "ident-dollar": "C14-ident-dollar", "interp-format": "C14-interp-format"}
+REPAIR_TO_FINDING = {"float-integral": "F11-float-integral", "float-nonfinite": "F11-float-nonfinite"}
 
 
 def sql_same(x, y):
@@ -95,14 +87,10 @@ def judge(ans, fmt_keywords):
                     pass
                 return problems, feats, ids or None
         else:
-            # same AST: only the hash order of named arguments may make the text differ between two runs of the printer
-            if problems == ["idem"] and "named-args-order" in feats:
-                return problems, feats, ["C14-named-args-order"]
-            if all(p.startswith("sql:") or p == "idem" for p in problems) and "named-args-order" in feats and "idem" in problems:
-                return problems, feats, ["C14-named-args-order"]
+            # same AST but the second formatting or the SQL differs: nothing known explains that
             return problems, feats, None
     for cls, fid in CLASS_TO_FINDING:
-        if cls in feats and cls != "named-args-order":
+        if cls in feats:
             return problems, feats, [fid]
     return problems, feats, None
 
@@ -185,6 +173,8 @@ def run_oracle(ck, fmt_keywords):
             ck.stat(stream, "compile-nondeterministic(C11)-outcome-sets-meet")
         for f in sorted(feats):
             ck.stat(stream, "has:" + f)
+        for f in sorted(O.constructs(O.strip(a["pl"]))):
+            ck.stat(stream, "repaired-construct:" + f)
         if "\n" in (a.get("fmt") or "").strip() and any(ln.startswith(" ") for ln in a["fmt"].split("\n")):
             ck.stat(stream, "output-wrapped")
         if not problems:
@@ -263,7 +253,7 @@ def run():
     ck.assumptions += [
         "partial: line breaking (SeparatedExprs / write_or_expand), statement layout, type expressions, lambdas and annotations are outside the theorems; they are covered only by the differential oracle (pl/fmt/compile on generated and pool sources)",
         "the oracle compares ASTs with `span` and `doc_comment` removed (the property ignores positions, comments and line wraps)",
-        "named arguments are a HashMap in the AST: the theorems fix one printing order; order dependence is observed only through the oracle (finding C14-named-args-order)",
+        "named arguments are a HashMap in the AST, printed in key order since commit 9396557: the model represents the map as its association list in that order",
         "compile equality is judged on sql.sqlite and sql.generic with format=false; a panic inside error rendering (F9) counts as an error",
     ]
     ck.finish(TRUSTED, "direct oracle: every source that parses is one case (distinct by text); exhaustive (parent,side,child) operator triples at depth 2 over 24 node kinds, sampled depth-3 chains, unary/binary adjacency list, pool, grammar-generated compilable / syntactic / long-line / hostile programs; correspondence: model text and tokens vs `fmt`, model parser vs real parser, literal and identifier printers vs Display on generated values")
